@@ -2625,8 +2625,12 @@ class Head(Expr):
             ]
             return type(self.frame)(*operands)
         if isinstance(self.frame, Head):
+            # The inner head has a single partition, which holds the rows of as
+            # many partitions of ITS frame as it was asked to look at
             return Head(
-                self.frame.frame, min(self.n, self.frame.n), self.operand("npartitions")
+                self.frame.frame,
+                min(self.n, self.frame.n),
+                self.frame.operand("npartitions"),
             )
 
     def _simplify_up(self, parent, dependents):
